@@ -28,6 +28,34 @@ def regen_all() -> int:
     return rc
 
 
+def coqchk_all() -> int:
+    """coqchk -o over all property files: exit 0 iff the independent checker accepts every compiled file,
+    nothing relies on type-in-type / unsafe fixpoints / assumed positivity, and every axiom in the context is
+    a standard-library one from the allow-list (or a primitive)."""
+    rc = regen_all()
+    rc2, out = common.coq_make([], timeout=3400, jobs=16)
+    if rc or rc2:
+        print(out[-3000:])
+        return 1
+    mods = sorted("EV.Properties." + f[:-3] for f in os.listdir(common.COQ / "Properties") if f.endswith(".vo"))
+    r, out = common.sh(["coqchk", "-silent", "-o", "-Q", ".", "EV", *mods], cwd=common.COQ, timeout=6000)
+    dst = common.VERIF / "docs" / "coqchk_summary.txt"
+    dst.write_text(out)
+    ok = r == 0
+    axioms, section = [], None
+    for line in out.splitlines():
+        if line.startswith("* "):
+            section = line
+            if ("type-in-type" in line or "unsafe" in line or "positivity" in line) and "<none>" not in line:
+                ok = False
+        elif section and section.startswith("* Axioms") and line.strip():
+            axioms.append(line.strip())
+    real = [a for a in axioms if not any(pfx in a for pfx in common.PRIMITIVE_PREFIXES + ("SpecFloat.", "FloatOps."))]
+    unknown = [a for a in real if not any(a.endswith(al) for al in common.ALLOWED_AXIOMS)]
+    print(f"[coqchk] rc={r} modules={len(mods)} axioms(non-primitive)={real} unknown={unknown}")
+    return 0 if ok and not unknown else 1
+
+
 def main() -> int:
     ap = argparse.ArgumentParser()
     ap.add_argument("prop", nargs="?")
@@ -35,7 +63,11 @@ def main() -> int:
     ap.add_argument("--replay")
     ap.add_argument("--regen", action="store_true")
     ap.add_argument("--setup", action="store_true")
+    ap.add_argument("--coqchk", action="store_true",
+                    help="re-check every Properties/*.vo (and all they depend on) with the independent checker")
     a = ap.parse_args()
+    if a.coqchk:
+        return coqchk_all()
     if a.regen or a.setup:
         rc = regen_all()
         if a.setup:
